@@ -361,13 +361,13 @@ def convert_custom_data(
     for name, params in zip(params_names, params_custom_list, strict=False):
         if len(params) == 1:
             assert idx < num_columns
-            new_custom_data[name] = custom_data[idx]
+            new_custom_data[name] = custom_data.iloc[:, idx]
             idx += 1
 
         else:
             assert (idx + len(params)) <= num_columns
             columns = [cnt for cnt, _ in zip(count(idx), params)]
-            new_values: list[list] = custom_data[columns].values.tolist()
+            new_values: list[list] = custom_data.iloc[:, columns].values.tolist()
             new_values_tuples: Sequence[tuple] = [tuple(el) for el in new_values]
 
             new_custom_data[name] = new_values_tuples
